@@ -239,8 +239,23 @@ func trunc(s string, n int) string {
 	return s
 }
 
-// C02 judges payload delivery.
+// C02 judges payload delivery: the request payload, and for streaming endpoints (the handshake request
+// carries the payload) every streamed message in order (stream.go).
 func C02(sp *spec.Spec, ex *rt.Exchange) *Verdict {
+	sv, m := sp.FindMethod(ex.Case.Svc, ex.Case.Method)
+	streaming := m != nil && m.Stream != "" && m.HTTP != nil
+	if streaming && ex.Stream != nil && ex.Stream.Watchdog != "" {
+		return &Verdict{Inconclusive: "stream watchdog fired: " + ex.Stream.Watchdog}
+	}
+	v := c02Request(sp, ex)
+	if streaming && v.Inconclusive == "" && ex.StubIn != nil {
+		StreamC02(sp, sv, m, ex, v)
+	}
+	return v
+}
+
+// c02Request judges the delivery of the request payload.
+func c02Request(sp *spec.Spec, ex *rt.Exchange) *Verdict {
 	v := &Verdict{}
 	sv, m := sp.FindMethod(ex.Case.Svc, ex.Case.Method)
 	if m == nil {
@@ -370,13 +385,16 @@ func ExpectedStatus(sp *spec.Spec, m *spec.Method, result any) []int {
 	return []int{200}
 }
 
-// C03 judges result delivery.
+// C03 judges result delivery (streaming endpoints: stream.go).
 func C03(sp *spec.Spec, ex *rt.Exchange) *Verdict {
 	v := &Verdict{}
-	_, m := sp.FindMethod(ex.Case.Svc, ex.Case.Method)
+	sv, m := sp.FindMethod(ex.Case.Svc, ex.Case.Method)
 	if m == nil {
 		v.Inconclusive = "unknown method"
 		return v
+	}
+	if m.Stream != "" && m.HTTP != nil {
+		return StreamC03(sp, sv, m, ex)
 	}
 	if ex.BuildErr != "" {
 		v.Inconclusive = "value builder: " + ex.BuildErr
